@@ -75,6 +75,15 @@ def used_params(gates):
     return s
 
 
+def share_objects(circuits, same_as):
+    """Position i holds the circuit OBJECT of position same_as[i] (the case generator made their gate lists equal)."""
+    if same_as:
+        for i, j in enumerate(same_as):
+            if j is not None and i < len(circuits):
+                circuits[i] = circuits[j]
+    return circuits
+
+
 def build_circuit(n, gates, n_params, name="c", metadata=None):
     """Qiskit circuit; parameter j is named p{j:02d} so that circuit.parameters order is index order.  Every parameter
     0..n_params-1 is made to occur (an unused one enters through rx(0 * p) = identity), so that the value list binds
@@ -370,7 +379,19 @@ def gen_case(rng, family, kind, shape_name, shape):
                 circuits.append(gen_classical_gates(rng, n, f, npi) if family == "classical" else gen_random_gates(rng, n, npi))
             params.append([rng.randint(-2, 3) for _ in range(npi)] if family == "classical" else [rng.uniform(-PI, PI) for _ in range(npi)])
             ptypes.append(rng.choice(["list", "tuple"] + (["numpy", "numpy"] if npi else [])))
-        return {"circuits": circuits, "params": params, "ptypes": ptypes}
+        same_as = [None] * count
+        if count >= 2 and rng.random() < 0.4:
+            # the same circuit OBJECT at several positions of one call, each position with its own parameter values (the optimiser
+            # callbacks pass [circuit] * k): adjacent repeats and repeats with other circuits in between, e.g. [A, B, A], [A, B, A, B]
+            for i in range(1, count):
+                if rng.random() < 0.6:
+                    j = rng.randrange(0, i)
+                    j = same_as[j] if same_as[j] is not None else j
+                    same_as[i] = j
+                    circuits[i] = circuits[j]
+                    params[i] = ([rng.randint(-2, 3) for _ in params[j]] if family == "classical" else [rng.uniform(-PI, PI) for _ in params[j]])
+                    ptypes[i] = rng.choice(["list", "tuple"] + (["numpy", "numpy"] if params[j] else []))
+        return {"circuits": circuits, "params": params, "ptypes": ptypes, "same_as": same_as}
 
     for _ in range(n_callers):
         cl = gen_call(rng.choice([1, 1, 2, 3, 4]) if rng.random() < 0.97 else 0)
@@ -521,7 +542,7 @@ def run_impl(case, timeout=90.0):
         try:
             ev = make_evaluator(ci)
             cl = case["callers"][ci]
-            circuits = [build_circuit(n, g, len(p), name=f"c{ci}_{i}", metadata={"caller": ci}) for i, (g, p) in enumerate(zip(cl["circuits"], cl["params"]))]
+            circuits = share_objects([build_circuit(n, g, len(p), name=f"c{ci}_{i}", metadata={"caller": ci}) for i, (g, p) in enumerate(zip(cl["circuits"], cl["params"]))], cl.get("same_as"))
             values = [param_container(angle_values(case, p), t) for p, t in zip(cl["params"], cl.get("ptypes") or ["list"] * len(cl["params"]))]
             originals = list(circuits)
             if cl.get("container") == "tuple":
@@ -536,7 +557,7 @@ def run_impl(case, timeout=90.0):
             if len(outs) > 1:
                 repeat_outs[ci] = outs   # compared in do_case with the value oracle's scale-relative tolerance, never bit for bit
             for si, step in enumerate(cl.get("sequence", [])):
-                sc = [build_circuit(n, g, len(p), name=f"c{ci}_s{si}_{i}", metadata={"caller": ci}) for i, (g, p) in enumerate(zip(step["circuits"], step["params"]))]
+                sc = share_objects([build_circuit(n, g, len(p), name=f"c{ci}_s{si}_{i}", metadata={"caller": ci}) for i, (g, p) in enumerate(zip(step["circuits"], step["params"]))], step.get("same_as"))
                 sv = [param_container(angle_values(case, p), t) for p, t in zip(step["params"], step["ptypes"])]
                 if step.get("fail"):
                     raw.fail_next = 1
